@@ -18,7 +18,8 @@ META = {
 
 RULE = ("exhaustive: for every communicator size R and every array length L in the tier's box, every rank "
         "evaluates owner(i)/is_mine(i) for all i and lists its for_all indices; a case = (R, L); non-trivial = "
-        "L > 0; hash owners: generated int64/string keys through map/set/disjoint_set on every rank")
+        "L > 0; hash owners: generated int64/string/double keys through map/set/disjoint_set on every rank; key equivalence: every "
+        "representation of one key (+0.0 / -0.0, a struct field outside the identity, padding bytes) has one owner, 1..8 ranks")
 
 
 def factor_layout(r):
@@ -96,6 +97,49 @@ def model_tables(pairs):
         parts = [p.strip().split() for p in o.split("|")]
         tabs[(R, L)] = (parts[0][1:], [int(x) for x in parts[1][1:]], [int(x) for x in parts[2][1:]])
     return tabs
+
+
+KEYEQ_KINDS = {"d": "double (+0.0 / -0.0)", "v": "struct {id; tag} compared and hashed by id only", "p": "struct {uint8; uint64} with garbage in its padding bytes"}
+
+
+def run_keyeq_job(binary, R, seed):
+    nodes, ppn = factor_layout(R)
+    return C.run_sim(binary, ["keyeq", seed], nodes=nodes, ppn=ppn, want_log=False, timeout=300)
+
+
+def judge_keyeq(res, R, seed, sr):
+    """keys that compare equal are ONE key: every representation of a key (+0.0 / -0.0; a struct field that is not part of
+    the identity; padding bytes) must have the same owner, through map and set, on every rank"""
+    res.evaluations += 1
+    case = {"ranks": R, "mode": "keyeq", "seed": seed}
+    if sr.verdict != "ok":
+        res.oracle_failures.append({"what": f"key-equivalence harness failed: {sr.verdict} {sr.stderr[-200:]}", "signature": "keyeq-run-failed", "case": case})
+        return
+    owners = {}
+    for r in range(R):
+        for l in sr.outs.get(r, []):
+            w = l.split()
+            if w and w[0] == "eq":
+                owners.setdefault((w[1], w[2]), []).append((r, [int(x) for x in w[3:]]))
+            elif l == "padlost":
+                res.corr_failures.append({"relation": "keyeq harness builds keys with garbage in the padding bytes", "what": "padding bytes were reset", "case": case})
+                return
+    if not owners or any(len(v) != R for v in owners.values()):
+        res.corr_failures.append({"relation": "keyeq harness reports every key on every rank", "what": f"{len(owners)} keys", "case": case})
+        return
+    bad_kinds = set()
+    for (kind, key), per_rank in sorted(owners.items()):
+        allo = sorted(set(o for (_, os_) in per_rank for o in os_))
+        res.count("keyeq-representations", sum(len(os_) for (_, os_) in per_rank))
+        if any(o < 0 or o >= R for o in allo):
+            res.oracle_failures.append({"what": f"owner out of [0,{R}) for a {KEYEQ_KINDS[kind]} key", "signature": "hash-owner-range", "case": dict(case, kind=kind, key=key, owners=allo)})
+        if len(allo) != 1 and kind not in bad_kinds:
+            bad_kinds.add(kind)
+            res.oracle_failures.append({"what": f"k1 == k2 but owner(k1) != owner(k2): key {key} of type {KEYEQ_KINDS[kind]} has owners {allo} on {R} ranks "
+                                                f"depending on its representation (rank 0 computed {per_rank[0][1]})",
+                                        "signature": "owner-not-function-of-key-equivalence", "case": dict(case, kind=kind, key=key, owners=allo)})
+    if R > 1:
+        res.distinct.add(("keyeq", R))
 
 
 def run(tier, seed, model_ok=True):
@@ -286,6 +330,10 @@ def run(tier, seed, model_ok=True):
         if seen_any:
             res.distinct.add(("twocomm", R))
 
+    # ---- owner is a function of the key as Compare / operator== see it, not of its object bytes
+    for R, sr in C.pmap(lambda R: (R, run_keyeq_job(binary, R, seed)), list(range(1, 9)) if tier == "quick" else list(range(1, 17))):
+        judge_keyeq(res, R, seed, sr)
+
     # ---- hash owners
     nkeys = 1500 if tier == "quick" else 10000
     sizes = [1, 2, 3, 4, 5, 7, 8] if tier == "quick" else list(range(1, 17))
@@ -344,6 +392,13 @@ def replay(data):
     elif case.get("mode") == "twocomm":
         nodes, ppn = factor_layout(R)
         sr = C.run_sim(binary, ["twocomm", 60, data.get("seed", 1)], nodes=nodes, ppn=ppn, want_log=False)
+    elif case.get("mode") == "keyeq":
+        res = C.Result()
+        sr = run_keyeq_job(binary, R, case.get("seed", data.get("seed", 1)))
+        judge_keyeq(res, R, case.get("seed", 1), sr)
+        for f in res.oracle_failures + res.corr_failures:
+            print(f.get("signature") or f.get("relation"), f["what"][:300])
+        return not (res.oracle_failures or res.corr_failures)
     elif case.get("mode") == "stored":
         nodes, ppn = factor_layout(R)
         env = {"YGM_COMM_ROUTING": case.get("routing", "NONE")}
